@@ -126,8 +126,15 @@ End SortShape.
 Lemma merge_group_two N circular rules key a t : t <> [] ->
   merge_group N circular rules key (a :: t) =
   (do done <- fold_left (merge_step N circular rules) (sort_by (fun x y => key x <? key y) (a :: t)) (Ok []);
-   Ok (map fst (rev done))).
+   do kept <- (if circular then ring_merge N circular rules (length done) (rev done) else Ok (rev done));
+   Ok (map fst kept)).
 Proof. intro H. destruct t as [|b t]; [congruence|reflexivity]. Qed.
+
+Lemma all_pairs_fwd_apart : forall l, all_pairs apart l -> fwd_apart l.
+Proof.
+  induction l as [|x r IH]; intro H; [exact I|]. destruct H as [Hx Hr]. split; [|apply IH; exact Hr].
+  eapply Forall_impl; [|exact Hx]. cbn beta. intros y [Hy _]. exact Hy.
+Qed.
 
 (* ---------- chains of one rule on a circular record ---------- *)
 Section Chains.
@@ -239,11 +246,13 @@ Lemma merge_chains_far_pairs q1 mid qk pairs :
   Permutation (map fst pairs) (map fst (sort_by klt pairs)).
 Proof.
   intros Hg Hs H2 Hfar. split; [|apply Permutation_map; apply sort_perm].
-  apply merge_group_unchanged_adj. apply all_pairs_adjacent.
-  eapply all_pairs_perm; [apply sort_perm|].
-  pose proof (separated_sep_all _ Hg Hs) as Hsa.
-  eapply chain_all_pairs; [exact Hg|exact Hsa| |exact H2].
-  apply far_first_last; assumption.
+  assert (Hall : all_pairs apart (sort_by klt pairs)).
+  { eapply all_pairs_perm; [apply sort_perm|].
+    pose proof (separated_sep_all _ Hg Hs) as Hsa.
+    eapply chain_all_pairs; [exact Hg|exact Hsa| |exact H2].
+    apply far_first_last; assumption. }
+  apply merge_group_unchanged_adj; [apply all_pairs_adjacent; exact Hall|].
+  intros _. apply all_pairs_fwd_apart. exact Hall.
 Qed.
 
 (* ---------- the pairs built by merge_over_origin_protos ---------- *)
@@ -436,9 +445,18 @@ Proof.
   inversion Hconn as [Hcm]. clear Hconn. unfold wrapped_pair in Hcm. fold (span2 N (ps qk) (pe q1)) in Hcm.
   exists m. split; [|split; [exact Hrm|symmetry; exact Hcm]].
   destruct xmid as [|y xmid'].
-  - cbn [fold_left bind] in H. inversion H. reflexivity.
-  - inversion Hxm as [|q2 ? mid' ? Hq2y Hxm']; subst.
-    (* the extension of the merged core stops short of the second core on both sides *)
+  - cbn [fold_left bind length rev app] in H.
+    rewrite (ring_merge_apart N true rules 1 [(m, ext)]) in H by (split; [constructor|exact I]).
+    cbn [bind] in H. inversion H. reflexivity.
+  - (* the extension of the merged core stops short of every core in between, on both sides *)
+    assert (Hfa' : Forall (apart (m, span2 N (ps qk - c) (pe q1 + c))) (y :: xmid')).
+    { rewrite Forall_forall. intros y' Hy'.
+      destruct (Forall2_in_r _ _ _ _ Hxm Hy') as [q' [Hq' (_ & Hcy & _)]].
+      rewrite Forall_forall in Hs1m, Hslast, Hmw.
+      pose proof (Hs1m q' Hq') as B1. pose proof (Hslast q' Hq') as B2. pose proof (Hmw q' Hq') as B3.
+      unfold apart. cbn [snd]. rewrite Hcy.
+      apply span_no_overlap; clear - B1 B2 B3 K1 K2 A0 A1 Hc; lia. }
+    inversion Hxm as [|q2 ? mid' ? Hq2y Hxm']; subst.
     inversion Hs1m as [|? ? B1 _]; subst. inversion Hslast as [|? ? B2 _]; subst.
     inversion Hmw as [|? ? B3 _]; subst.
     rewrite <- Hcm in Hext.
@@ -446,16 +464,20 @@ Proof.
       by (clear - A0 A1 K1 K2 Hs1k' Hc Hsk; lia).
     destruct (pe q1 + c <=? ps qk - c) eqn:Et; [|clear - Et B1 B2 B3; lia].
     inversion Hext as [Hext']. clear Hext. rewrite <- Hext' in H.
+    assert (Hmids : all_pairs apart (y :: xmid')).
+    { apply (chain_all_pairs (q2 :: mid')); [exact Hgm|exact Hsm| |exact Hxm].
+      intros a b Ha Hb. rewrite Forall_forall in Hmidb.
+      destruct (Hmidb a Ha) as (_ & Ba & _). destruct (Hmidb b Hb) as (_ & _ & Bb).
+      clear - Ba Bb Hc. lia. }
     assert (Hadj : adjacent_all apart ((m, span2 N (ps qk - c) (pe q1 + c)) :: y :: xmid')).
     { split.
-      - unfold apart. cbn [snd]. destruct Hq2y as (_ & -> & _).
-        apply span_no_overlap; clear - B1 B2 B3 K1 K2 A0 A1 Hc; lia.
-      - apply all_pairs_adjacent. apply (chain_all_pairs (q2 :: mid')); [exact Hgm|exact Hsm| |exact Hxm].
-        intros a b Ha Hb. rewrite Forall_forall in Hmidb.
-        destruct (Hmidb a Ha) as (_ & Ba & _). destruct (Hmidb b Hb) as (_ & _ & Bb).
-        clear - Ba Bb Hc. lia. }
+      - exact (Forall_inv Hfa').
+      - apply all_pairs_adjacent. exact Hmids. }
     rewrite (fold_merge_apart N true rules _ _ [] Hadj) in H. cbn [bind] in H.
-    inversion H. rewrite !rev_app_distr, rev_involutive. reflexivity.
+    rewrite !rev_app_distr, rev_involutive in H. cbn [rev app] in H.
+    rewrite (ring_merge_apart N true rules _ ((m, span2 N (ps qk - c) (pe q1 + c)) :: y :: xmid')) in H
+      by (split; [exact Hfa'|apply all_pairs_fwd_apart; exact Hmids]).
+    cbn [bind] in H. inversion H. reflexivity.
 Qed.
 
 Lemma chain_cores : forall mid xmid, Forall2 chain_pair mid xmid ->
@@ -503,42 +525,48 @@ Print Assumptions merge_chains_far_pairs.
 Print Assumptions merge_chains_near_pairs.
 
 (* ====================================================================================
-   Third pass: two statements of the property that are false of the code (findings C03-K7, C03-K8)
+   Third pass: two statements of the property that were false of the code (findings C03-K7, C03-K8) and hold of
+   the repaired code; one that is still false (C03-K9)
    ==================================================================================== *)
 
-(* C03-K8 anchor_window_full_record.  A circular record of 4000 bases, cutoff 2000, rule "p0 and p1", gene 0
-   [100:200) with p0, gene 1 [3800:3900) with p1: 300 apart over the origin.  The cutoff window of either gene covers
-   the whole record, _extend_area_location returns one part, circular_origin stays 0, in_range measures 3600: no
-   anchoring gene at all, whereas evaluating the rule over the whole record with the ring distance makes both genes
-   anchors.  The same genes on a record of 4101 bases (window = two parts) are found. *)
-Lemma anchor_window_refuted : exists N gs hs rules,
-  apply_cluster_rules N true gs hs rules true = Ok [] /\
-  anchors_spec N true gs hs rules = Ok [(0, [0; 1])] /\
-  apply_cluster_rules (N + 101) true [(0, [mkPart 100 200 1]); (1, [mkPart 3901 4001 1])] hs rules true = Ok [(0, [0; 1])].
+(* C03-K8 anchor_window_full_record, repaired: circular_origin is the record length for every gene and every cutoff on
+   a circular record (and 0 on a linear one), whatever shape the cutoff window has *)
+Lemma gene_info_origin N circular gs g cutoff i :
+  gene_info N circular gs g cutoff = Ok i -> snd i = if circular then N else 0.
 Proof.
-  exists 4000, [(0, [mkPart 100 200 1]); (1, [mkPart 3800 3900 1])], [(0, [(0, 0)]); (1, [(1, 0)])],
-         [mkRule 2000 0 (C01.Model.Group false [C01.Model.IAnd [C01.Model.Single false 0; C01.Model.Single false 1]]) None []].
-  repeat split; vm_compute; reflexivity.
+  unfold gene_info. intro H.
+  destruct (connect_locations [snd g] (wrap_of N circular)) as [l|k]; cbn [bind] in H; [|discriminate H].
+  destruct (2 <? zlen l); [discriminate H|].
+  destruct (extend_area l cutoff N circular false) as [l'|k]; cbn [bind] in H; [|discriminate H].
+  inversion H. reflexivity.
 Qed.
 
-(* C03-K7 merge_scan_adjacent_only.  Circular record of 10 kb, rule "p0 EXTENDERS p1", cutoff 1000: anchors
+(* the witness of the finding: a circular record of 4000 bases, cutoff 2000, rule "p0 and p1", gene 0 [100:200) with
+   p0, gene 1 [3800:3900) with p1, 300 apart over the origin.  The cutoff window of either gene covers the whole record
+   (one part); both genes are anchoring genes now, as under the specification anchors_spec and as on a record 101 bases
+   longer (window = two parts), and the pipeline reports the protocluster over the origin *)
+Lemma anchor_window_repaired :
+  let gs := [(0, [mkPart 100 200 1]); (1, [mkPart 3800 3900 1])] in
+  let hs := [(0, [(0, 0)]); (1, [(1, 0)])] in
+  let rules := [mkRule 2000 0 (C01.Model.Group false [C01.Model.IAnd [C01.Model.Single false 0; C01.Model.Single false 1]]) None []] in
+  apply_cluster_rules 4000 true gs hs rules true = Ok [(0, [0; 1])] /\
+  anchors_spec 4000 true gs hs rules = Ok [(0, [0; 1])] /\
+  apply_cluster_rules 4101 true [(0, [mkPart 100 200 1]); (1, [mkPart 3901 4001 1])] hs rules true = Ok [(0, [0; 1])] /\
+  pipeline 4000 true gs hs rules true = Ok [(0, span2 4000 3800 200, span2 4000 3800 200)].
+Proof. cbn zeta. repeat split; vm_compute; reflexivity. Qed.
+
+(* C03-K7 merge_scan_adjacent_only, repaired.  Circular record of 10 kb, rule "p0 EXTENDERS p1", cutoff 1000: anchors
    g0 [50:150), g1 [5000:5100), g2 [7900:8000), g4 [9000:9100), extender gene g3 [8450:8550).  g2 and g4 are exactly
-   the cutoff apart (two chains); both grow to g3; g4's cluster is merged with g0's over the origin; the result is never
-   compared with g2..g3: the pipeline returns two protoclusters of rule 0 whose cores overlap. *)
-Lemma merge_scan_adjacent_refuted : exists N gs hs rules protos p q,
-  pipeline N true gs hs rules true = Ok protos /\ In p protos /\ In q protos /\ p <> q /\
-  p_rule p = p_rule q /\ overlap (p_core p) (p_core q) = true.
-Proof.
-  exists 10000, [(0, [mkPart 50 150 1]); (1, [mkPart 5000 5100 1]); (2, [mkPart 7900 8000 1]); (3, [mkPart 8450 8550 1]);
-                 (4, [mkPart 9000 9100 1])],
-         [(0, [(0, 0)]); (1, [(0, 0)]); (2, [(0, 0)]); (3, [(1, 0)]); (4, [(0, 0)])],
-         [mkRule 1000 0 (C01.Model.Single false 0) (Some (C01.Model.Single false 1)) []].
-  eexists. exists (0, [mkPart 7900 8550 1], [mkPart 7900 8550 1]).
-  exists (0, [mkPart 8450 10000 1; mkPart 0 150 1], [mkPart 8450 10000 1; mkPart 0 150 1]).
-  split; [vm_compute; reflexivity|].
-  split; [repeat (first [left; reflexivity | right])|]. split; [repeat (first [left; reflexivity | right])|].
-  split; [discriminate|]. split; vm_compute; reflexivity.
-Qed.
+   the cutoff apart (two chains); both grow to g3; g4's cluster is merged with g0's over the origin by the scan; the
+   second pass then finds g2..g3 overlapping it and joins them: one protocluster g2..g0 (and the lone g1), what the same
+   genes give read from an origin 3000 bases further on (merge_scan_rotated_ok) *)
+Lemma merge_scan_repaired :
+  pipeline 10000 true [(0, [mkPart 50 150 1]); (1, [mkPart 5000 5100 1]); (2, [mkPart 7900 8000 1]); (3, [mkPart 8450 8550 1]);
+                       (4, [mkPart 9000 9100 1])]
+           [(0, [(0, 0)]); (1, [(0, 0)]); (2, [(0, 0)]); (3, [(1, 0)]); (4, [(0, 0)])]
+           [mkRule 1000 0 (C01.Model.Single false 0) (Some (C01.Model.Single false 1)) []] true
+  = Ok [(0, span2 10000 7900 150, span2 10000 7900 150); (0, [mkPart 5000 5100 1], [mkPart 5000 5100 1])].
+Proof. vm_compute; reflexivity. Qed.
 
 (* the same genes read from an origin 3000 bases further on (nothing near the origin): one protocluster g2..g0 *)
 Lemma merge_scan_rotated_ok :
@@ -548,8 +576,9 @@ Lemma merge_scan_rotated_ok :
            [mkRule 1000 0 (C01.Model.Single false 0) (Some (C01.Model.Single false 1)) []] true
   = Ok [(0, [mkPart 900 3150 1], [mkPart 900 3150 1]); (0, [mkPart 8000 8100 1], [mkPart 8000 8100 1])].
 Proof. vm_compute; reflexivity. Qed.
-Print Assumptions anchor_window_refuted.
-Print Assumptions merge_scan_adjacent_refuted.
+Print Assumptions gene_info_origin.
+Print Assumptions anchor_window_repaired.
+Print Assumptions merge_scan_repaired.
 
 (* C03-K9 extender_overlapping_core_not_admitted.  Linear record of 2151 bases, rule "p0 or p2 EXTENDERS p1", cutoff 1000:
    anchors g0 [0:100), g2 [600:2100), g3 [900:1000) form the core [0:2100); g4 [2001:2101) satisfies EXTENDERS and shares 99
